@@ -118,7 +118,7 @@ Print Assumptions C04_components_partial.
      every real operation on non-negative operands within relative ur, int -> double conversions and comparisons
      exact, deps = epsv (DBL_EPSILON).
    Notation: Sabs cs z = sum |a_i||z|^i; gam n = ((1+um)(1+ua))^n - 1; kap n = (1-uh) ((1-ur)^2 (1-uh))^n;
-   e_f n = (1-ur)^2 4 n epsv kap n; rho4 = (1-ur)^4;
+   e_f n = (1-ur)^2 4 n epsv kap n (mps_fnewton), e_d n = (1-ur)^3 4 n epsv kap n (mps_dnewton); rho4 = (1-ur)^4;
    COND rho e gamma eta := (1+uh) gamma <= rho (1-eta) e /\
                            ((1+uh) - rho (1-eta)(1-uh)) (1+gamma) + (1+uh) gamma <= rho (1-eta) e
    (first order: n (um+ua) + 2 uh + 4 ur + eta <= 4 n epsv; for binary64, um = 9/4 u, ua = ur = u, uh = 4u, epsv = 2u,
@@ -164,6 +164,32 @@ Theorem C04_fnewton_coded_sound_partial (C : numClosedFieldType) (A : arith C C 
   exists2 w, root (Poly cs) w & `|z - w| <= o_rad o.
 Proof. by move=> SR; apply: (fnewton_sound SR). Qed.
 Print Assumptions C04_fnewton_coded_sound_partial.
+
+(* mps_dnewton: e_d n = (1-ur)^3 4 n epsv kap n (eps = DBL_EPSILON * n * 4 costs one more rounding).  The radius as
+   coded - n (absp + apeps)/|p1^| when `again', else the smaller of (n+1)(absp + apeps)/|p1^| and the radius at entry,
+   plus 4 eps |z| - gives a disc with a root, provided the radius at entry did (it is kept when smaller) and adding a
+   non-negative number with rdpe_add_eq never decreases a number (true for rounding to nearest; not part of std_round).
+   PARTIAL as above: eta is a hypothesis. *)
+Theorem C04_dnewton_coded_sound_partial (C : numClosedFieldType) (A : arith C C C) (um ua uh ur epsv : C)
+    (n : nat) (cs ms : seq C) (z r0 eta : C) :
+  std_round A um ua uh ur epsv -> size cs = n.+1 -> ms_ok uh cs ms -> last 0 cs != 0 ->
+  (forall a b, 0 <= a -> 0 <= b -> a <= radd_eq A a b) ->
+  0 <= r0 -> (exists2 w, root (Poly cs) w & `|z - w| <= r0) ->
+  let o := dnewton A n cs ms z r0 in
+  o_p1 o != 0 -> `|o_p1 o - (Poly cs)^`().[z]| <= eta * `|o_p1 o| -> 0 <= eta -> eta < 1 ->
+  COND uh (rho4 ur) (e_d uh ur epsv n) (gam um ua n) eta ->
+  exists2 w, root (Poly cs) w & `|z - w| <= o_rad o.
+Proof. by move=> SR; apply: (dnewton_sound SR). Qed.
+Print Assumptions C04_dnewton_coded_sound_partial.
+
+(* NULL DERIVATIVE branch of mps_dnewton (p^ <> 0, p1^ = 0): the radius is left as it was and `again' is cleared *)
+Theorem C04_dnewton_null_derivative (C : numClosedFieldType) (A : arith C C C) (um ua uh ur epsv : C)
+    (n : nat) (cs ms : seq C) (z r0 : C) :
+  std_round A um ua uh ur epsv ->
+  let o := dnewton A n cs ms z r0 in
+  o_p o != 0 -> o_p1 o = 0 -> o_rad o = r0 /\ o_again o = false.
+Proof. by move=> SR; apply: (dnewton_null_derivative SR). Qed.
+Print Assumptions C04_dnewton_null_derivative.
 
 (* ---------------- non-vacuity ---------------- *)
 Section Examples.
